@@ -2,7 +2,7 @@
 import ast
 
 from ..model import AnalysisError, dotted, unparse, ClassInfo
-from ..util import POS, FACTS, FACTS_I, U, enum_paths, walk_no_nested, is_yield_call, Yields
+from ..util import FACTS_I, POS, FACTS, FACTS_I, U, enum_paths, walk_no_nested, is_yield_call, Yields
 from ..paths import call_attr, call_name
 
 WM = 'scales/pool/watermark.py'
@@ -58,7 +58,7 @@ def r1_r4(ctx, cls):
     if creates or sw:
       n_create += 1
       ok = len(sw) == 1 and sw[0][1:] == ('+', '1') and len(creates) == 1
-      ti = [i for i, e in enumerate(ev) if e.kind == 'cond' and U(e.node).replace(' ', '') in ('self._current_size<self._max_size', 'self._max_size>self._current_size') and e.info]
+      ti = sorted(set(i for c, t, i in FACTS_I(ev) if c == 'self._current_size<self._max_size' and t))
       ok = ok and bool(ti) and ti[-1] < sw[0][0]
       ctx.ob('C07.R1', g, 'a connection is created only under _current_size < max with one increment', ok,
              'creation path: size writes %s, creates %s, bound test at %s' % (sw, creates, ti), why1)
@@ -332,4 +332,5 @@ def r7(ctx, cls):
   sp = prog.func(WM, 'WatermarkPoolSink.state')
   ctx.ob('C07.R7', sp, 'pool state is its recorded state', U(sp.node.body[-1]).replace(' ', '') == 'returnself._state', 'state changed', why, nontrivial=False)
   fc = prog.func(WM, 'WatermarkPoolSink._FlushCache')
-  ctx.ob('C07.R7', fc, 'flush discards every cached connection', 'self._DiscardSink(sink)forsinkinself._cache' in U(fc.node).replace(' ', ''), '_FlushCache changed', why, nontrivial=False)
+  tfc = U(fc.node).replace(' ', '')
+  ctx.ob('C07.R7', fc, 'flush discards every cached connection', 'self._DiscardSink(' in tfc and 'inself._cache' in tfc and 'if' not in tfc.split('inself._cache')[1][:3], '_FlushCache changed', why, nontrivial=False)
